@@ -93,3 +93,268 @@ func BadTrim(r io.Reader) []byte {
 	n, _ := r.Read(*buf)
 	return bytes.TrimSpace((*buf)[:n])
 }
+
+// ---- Get / Put behind helpers
+
+func getBuf() *[]byte  { return pool.Get().(*[]byte) }
+func putBuf(b *[]byte) { pool.Put(b) }
+
+var lastBuf *[]byte
+
+func putAndKeep(b *[]byte) {
+	pool.Put(b)
+	lastBuf = b
+}
+
+func GoodWrapped(r io.Reader) ([]byte, error) {
+	buf := getBuf()
+	defer putBuf(buf)
+	n, err := r.Read(*buf)
+	return bytes.Clone((*buf)[:n]), err
+}
+
+func GoodWrappedExplicit(r io.Reader) ([]byte, error) {
+	buf := getBuf()
+	n, err := r.Read(*buf)
+	out := append([]byte(nil), (*buf)[:n]...)
+	putBuf(buf)
+	return out, err
+}
+
+func BadWrappedReturn(r io.Reader) []byte {
+	buf := getBuf()
+	defer putBuf(buf)
+	n, _ := r.Read(*buf)
+	return (*buf)[:n]
+}
+
+func BadPutHelperKeeps(r io.Reader) {
+	buf := getBuf()
+	defer putAndKeep(buf)
+	_, _ = r.Read(*buf)
+}
+
+func BadHandOverAndRelease() *[]byte {
+	buf := pool.Get().(*[]byte)
+	defer pool.Put(buf)
+	return buf
+}
+
+// ---- zeroing of recycled slices (functions with Zero in their name)
+
+var slices sync.Pool
+
+func zeroAll(b []byte) {
+	for i := range b {
+		b[i] = 0
+	}
+}
+
+func zeroSmall(b []byte) {
+	if len(b) > 1024 {
+		return
+	}
+	clear(b)
+}
+
+func GoodZeroRange() []byte {
+	v := slices.Get()
+	if v == nil {
+		return make([]byte, 0, 8)
+	}
+	b := v.([]byte)
+	for i := range b {
+		b[i] = 0
+	}
+	return b[:0]
+}
+
+func GoodZeroThreeClause() []byte {
+	v := slices.Get()
+	if v == nil {
+		return make([]byte, 0, 8)
+	}
+	b := v.([]byte)
+	for i := 0; i < len(b); i++ {
+		b[i] = 0
+	}
+	return b[:0]
+}
+
+func GoodZeroRangeInt() []byte {
+	v := slices.Get()
+	if v == nil {
+		return make([]byte, 0, 8)
+	}
+	b := v.([]byte)
+	for i := range len(b) {
+		b[i] = 0
+	}
+	return b[:0]
+}
+
+func GoodZeroDown() []byte {
+	b, ok := slices.Get().([]byte)
+	if !ok {
+		return make([]byte, 0, 8)
+	}
+	for i := len(b) - 1; i >= 0; i-- {
+		b[i] = 0
+	}
+	return b[:0]
+}
+
+func GoodZeroClearPhi() []byte {
+	var out []byte
+	if v := slices.Get(); v != nil {
+		b := v.([]byte)
+		clear(b)
+		out = b[:0]
+	} else {
+		out = make([]byte, 0, 8)
+	}
+	return out
+}
+
+func GoodZeroHelper() []byte {
+	v := slices.Get()
+	if v == nil {
+		return make([]byte, 0, 8)
+	}
+	b := v.([]byte)
+	zeroAll(b[:len(b)])
+	return b[:0]
+}
+
+func BadZeroNone() []byte {
+	v := slices.Get()
+	if v == nil {
+		return make([]byte, 0, 8)
+	}
+	return v.([]byte)[:0]
+}
+
+func BadZeroHalf() []byte {
+	v := slices.Get()
+	if v == nil {
+		return make([]byte, 0, 8)
+	}
+	b := v.([]byte)
+	for i := 0; i < len(b)/2; i++ {
+		b[i] = 0
+	}
+	return b[:0]
+}
+
+func BadZeroSkipFirst() []byte {
+	v := slices.Get()
+	if v == nil {
+		return make([]byte, 0, 8)
+	}
+	b := v.([]byte)
+	for i := 1; i < len(b); i++ {
+		b[i] = 0
+	}
+	return b[:0]
+}
+
+func BadZeroOnePath(quick bool) []byte {
+	v := slices.Get()
+	if v == nil {
+		return make([]byte, 0, 8)
+	}
+	b := v.([]byte)
+	if !quick {
+		clear(b)
+	}
+	return b[:0]
+}
+
+func BadZeroHelperSomePaths() []byte {
+	v := slices.Get()
+	if v == nil {
+		return make([]byte, 0, 8)
+	}
+	b := v.([]byte)
+	zeroSmall(b)
+	return b[:0]
+}
+
+func BadZeroBreak(stop int) []byte {
+	v := slices.Get()
+	if v == nil {
+		return make([]byte, 0, 8)
+	}
+	b := v.([]byte)
+	for i := range b {
+		if i == stop {
+			break
+		}
+		b[i] = 0
+	}
+	return b[:0]
+}
+
+func BadZeroStep2() []byte {
+	v := slices.Get()
+	if v == nil {
+		return make([]byte, 0, 8)
+	}
+	b := v.([]byte)
+	for i := 0; i < len(b); i += 2 {
+		b[i] = 0
+	}
+	return b[:0]
+}
+
+func GoodZeroLenMinusOne() []byte {
+	v := slices.Get()
+	if v == nil {
+		return make([]byte, 0, 8)
+	}
+	b := v.([]byte)
+	for i := 0; i <= len(b)-1; i++ {
+		b[i] = 0
+	}
+	return b[:0]
+}
+
+func GoodZeroCopyFresh() []byte {
+	v := slices.Get()
+	if v == nil {
+		return make([]byte, 0, 8)
+	}
+	b := v.([]byte)
+	copy(b, make([]byte, len(b)))
+	return b[:0]
+}
+
+func GoodZeroTypeSwitch() []byte {
+	switch b := slices.Get().(type) {
+	case []byte:
+		b = b[:cap(b)]
+		clear(b)
+		return b[:0]
+	default:
+		return make([]byte, 0, 8)
+	}
+}
+
+// ---- hand-over helpers that give the buffer back on some paths only
+
+// GoodFillOrRelease hands the buffer to its caller on success and gives it back on failure.
+func GoodFillOrRelease(r io.Reader) (*[]byte, error) {
+	buf := pool.Get().(*[]byte)
+	if _, err := r.Read(*buf); err != nil {
+		pool.Put(buf)
+		return nil, err
+	}
+	return buf, nil
+}
+
+func BadPutThenReturn(r io.Reader) *[]byte {
+	buf := pool.Get().(*[]byte)
+	_, _ = r.Read(*buf)
+	pool.Put(buf)
+	return buf
+}
